@@ -781,7 +781,9 @@ class Processor:
                 return ref if ref >= 0 else len(del_nc.parent) + ref
             return -1
 
-        unique_nodes: List[NodeCoords] = []
+        # Every index is resolved BEFORE anything is deleted; a negative index
+        # counts from an end which moves with every deletion.
+        unique_nodes: List[Any] = []
         seen_elements = set()
         for gathered_nc in delete_nodes:
             ele_index = list_index(gathered_nc)
@@ -790,14 +792,14 @@ class Processor:
                 if ele_key in seen_elements:
                     continue
                 seen_elements.add(ele_key)
-            unique_nodes.append(gathered_nc)
-        unique_nodes.sort(key=list_index)
+            unique_nodes.append((ele_index, gathered_nc))
+        unique_nodes.sort(key=lambda indexed_nc: indexed_nc[0])
 
         # pylint: disable=locally-disabled,too-many-nested-blocks
-        for delete_nc in reversed(unique_nodes):
+        for (ele_index, delete_nc) in reversed(unique_nodes):
             node = delete_nc.node
             parent = delete_nc.parent
-            parentref = delete_nc.parentref
+            parentref = delete_nc.parentref if ele_index < 0 else ele_index
             ancestry = delete_nc.ancestry
             self.logger.debug(
                 "Deleting node:",
